@@ -79,9 +79,9 @@ class SidecarValidator:
                 def_check_list.append(hed_string_obj.find_tags({DefTagNames.DEFINITION_KEY}, recursive=True,
                                                                include_groups=0))
 
-                # Might refine this later - for now just skip checking placeholder counts in definition columns.
-                if not def_check_list[-1]:
-                    new_issues += self._validate_pound_sign_count(hed_string_obj, column_type=column_data.column_type)
+                # Definitions are left out of the count; an entry that holds nothing but definitions has nothing to count.
+                new_issues += self._validate_pound_sign_count(hed_string_obj, column_type=column_data.column_type,
+                                                              has_definitions=bool(def_check_list[-1]))
 
                 error_handler.add_context_and_filter(new_issues)
                 issues += new_issues
@@ -281,11 +281,13 @@ class SidecarValidator:
             error_handler.pop_error_context()
         return val_issues
 
-    def _validate_pound_sign_count(self, hed_string, column_type):
+    def _validate_pound_sign_count(self, hed_string, column_type, has_definitions=False):
         """ Check if a given HED string in the column has the correct number of pound signs.
 
         Parameters:
             hed_string (str or HedString): HED string to be checked.
+            column_type (ColumnType): The type of the column the string is an entry of.
+            has_definitions (bool): True if the string contains definitions (which are not counted).
 
         Returns:
             list: Issues due to pound sign errors. Each issue is a dictionary.
@@ -300,6 +302,8 @@ class SidecarValidator:
         hed_string_copy = copy.deepcopy(hed_string)
         hed_string_copy.remove_definitions()
         hed_string_copy.shrink_defs()
+        if has_definitions and not hed_string_copy.children:
+            return []
 
         if str(hed_string_copy).count("#") != expected_count:
             return ErrorHandler.format_error(error_type, pound_sign_count=str(hed_string_copy).count("#"))
